@@ -283,8 +283,8 @@ def cangjie_inputs(rng, quick):
     three_known = ["cdl", "con", "cop", "cuu", "dkp"]
     if quick:
         return rng.sample(one, 6) + rng.sample(two, 70) + three_known + ["".join(rng.choice(az) for _ in range(3)) for _ in range(45)]
-    return one + two + three_known + ["".join(rng.choice(az) for _ in range(3)) for _ in range(700)] + \
-        ["".join(rng.choice(az) for _ in range(rng.choice([4, 5]))) for _ in range(100)]
+    return one + two + three_known + ["".join(rng.choice(az) for _ in range(3)) for _ in range(500)] + \
+        ["".join(rng.choice(az) for _ in range(rng.choice([4, 5]))) for _ in range(60)]
 
 
 # ------------------------------------------------------------------ parsing observations
@@ -748,7 +748,7 @@ def rows_from_json(r):
 def run(c):
     quick = c.tier == "quick"
     cap = 400 if quick else 2500
-    n_orders = 3 if quick else 5
+    n_orders = 3 if quick else 4
     audit = vlib.lean_audit("C04")
     if not quick and audit["ok"]:
         ok, log = vlib.leanchecker("RimeModel.Props.C04")
@@ -778,7 +778,7 @@ def run(c):
     for r, name in api_corpus:
         rounds.append((rows_from_json(r), [case_from_json(r)], "corpus"))
     # synthetic schemas: several tables
-    for t in range(2 if quick else 8):
+    for t in range(2 if quick else 6):
         rows = gen_rows(c.rng)
         cases = []
         for sid in sorted(SYN):
@@ -786,7 +786,7 @@ def run(c):
             inputs = set(keys[:])
             for _ in range(6 if quick else 20):
                 inputs.add("".join(c.rng.choice("abc") for _ in range(c.rng.choice([1, 2, 3, 4]))))
-            for inp in sorted(inputs)[: (14 if quick else 60)]:
+            for inp in sorted(inputs)[: (14 if quick else 40)]:
                 cases.append(Case(sid, [], inp, c.rng.choice(["keys", "keys", "set"]), rows_id=t))
         rounds.append((rows, cases, "syn%d" % t))
     # stock schemas
@@ -795,10 +795,10 @@ def run(c):
         if quick:
             combos = [c.rng.choice([(1, 1), (1, 1), (1, 0), (0, 1), (0, 0)])]
         else:
-            combos = [(1, 1), (0, 0)] + ([(1, 0), (0, 1)] if len(code) <= 2 else [])
+            combos = [(1, 1)] + ([c.rng.choice([(0, 0), (1, 0), (0, 1)])] if len(code) <= 2 else [])
         for (s, e) in combos:
             cases.append(Case("cangjie5", [("simplification", s), ("extended_charset", e)], code, c.rng.choice(["keys", "keys", "set"])))
-    for w in luna_inputs(c.rng, 40 if quick else 400):
+    for w in luna_inputs(c.rng, 40 if quick else 300):
         simp, tw = c.rng.choice([(0, 0), (1, 0), (1, 0), (0, 1), (1, 1)])
         cases.append(Case("luna_pinyin", [("zh_simp", simp), ("zh_tw", tw)], w, c.rng.choice(["keys", "keys", "set"])))
     for k in range(0, len(cases), 150):
